@@ -231,6 +231,31 @@ class DynMixin(object):
             yield r
 
     # ------------------------------------------------------------------ operators
+    def binop_dyn(self, st, opn, a, b, inplace):
+        da = isinstance(a, Sym) and a.kind == "dyn"
+        db = isinstance(b, Sym) and b.kind == "dyn"
+        if opn == "Add" and ((da and self.is_str(b)) or (db and self.is_str(a)) or (da and db)):
+            ta, tb = self.to_dyn(st, a), self.to_dyn(st, b)
+            both = z3.And(Val.is_S(ta), Val.is_S(tb))
+            for s, ok in self.branch(st, both):
+                if ok:
+                    yield s, Sym("str", z3.Concat(Val.sval(ta), Val.sval(tb)))
+                else:
+                    if da and db:
+                        raise Unsupported("+ on dynamic values that are not both strings")
+                    yield self.raise_(s, "TypeError", "can only concatenate str to str")
+            return
+        raise Unsupported("binop %s on %r, %r" % (opn, a, b))
+
+    def bi_new_type(self, st, args, kw):
+        if len(args) != 1:
+            raise Unsupported("type() with three arguments")
+        v = args[0]
+        if isinstance(v, Sym) and v.kind == "dyn":
+            yield st, dyn(CLASS_OF(v.t))
+        else:
+            yield st, dyn(smt.fresh("type_of", Val))
+
     def _eq_dyn(self, st, a, b):
         """== on dynamic values. numpy arrays compare element-wise: using the result as a truth value (or comparing
         with a sequence of another length) raises ValueError - modelled as: comparing an ndarray raises."""
